@@ -6,7 +6,12 @@
    (see PoolProof.v).
 
    The circuit itself (Gates, NumWires, ...) is only read by every call and is
-   not part of the state.  Shared state:
+   not part of the state: the ONLY mutable state inside circuit.Circuit is
+   garblePool.  This is an assumption about the Go source, checked on every run
+   by the source inventory of harness c17 (c17scan.go: fields of Circuit;
+   assignments to / address-takings of / method calls on receiver fields in
+   Garble, Eval, Compute and the *Circuit methods they call) and exercised by
+   concurrent sessions with different keys on one circuit.  Shared state:
      ptr       Circuit.garblePool, an atomic.Pointer[sync.Pool]: None | Some pool id
      pool p    contents of sync.Pool object p (a list of scratch ids; Get removes
                any element or returns a NEW scratch — sync.Pool may also drop
